@@ -176,10 +176,10 @@ class Ctx:
             rc, out = sh(["timeout", "600", "coqc", "-Q", ".", "SE", "-w", "-notation-overridden", pf], cwd=COQ, timeout=630)
             return pf, rc, out
 
-        with Lock(os.path.join(WORK, "coq.lock")):
-            with ThreadPoolExecutor(max_workers=8) as ex:
-                for pf, rc, out in ex.map(one, prop_files):
-                    results[pf] = (rc, out)
+        # obligation files are compiled without the global lock (each writes only its own .vo)
+        with ThreadPoolExecutor(max_workers=8) as ex:
+            for pf, rc, out in ex.map(one, prop_files):
+                results[pf] = (rc, out)
         n_ok = 0
         axioms = set()
         for pf in prop_files:
